@@ -921,3 +921,69 @@ func (w *SessWorld) SendMulti(s *SS, req *spb.ModifyRequest) []string {
 	s.GotMsg = true
 	return w.mustEnd(s, what, resp, err, Expect{Codes: []codes.Code{codes.InvalidArgument}}, "multi-field")
 }
+
+// SendGoodThenUnstamped sends ONE request whose first operation is correctly stamped and
+// whose second operation carries no election id (optionally with an operation type the
+// protocol does not define). On the session of the primary the first operation is judged
+// by the RIB model as always; the second one must end the RPC (an operation without an
+// election id is a protocol violation wherever it stands in a request, whatever else is
+// wrong with it) and must not be applied. On any other session it degenerates to an
+// operation without an election id.
+func (w *SessWorld) SendGoodThenUnstamped(s *SS, first, second gen.OpSpec, unknownType bool) []string {
+	if !(s.Negotiated && w.Prim == s && s.Last != nil && idEq(s.Last, w.Max)) {
+		return w.SendOps(s, []gen.OpSpec{second}, nil)
+	}
+	var probs []string
+	first.Op.ElectionId = s.Last
+	second.Op.ElectionId = nil
+	if unknownType {
+		second.Op.Op = spb.AFTOperation_Operation(77)
+	}
+	s.Sent[first.Op.GetId()], s.Sent[second.Op.GetId()] = true, true
+	s.GotMsg = true
+	res := s.S.Ops([]*spb.AFTOperation{first.Op, second.Op}, s.Last)
+	w.logf("%s sends one request [%s stamped %s; %s without election id (unknown type: %v)] -> results=%s rpcErr=%v", s.Name, first.String(), IDStr(s.Last), second.String(), unknownType, resultsStr(res.Results), errStr(res.RPCErr))
+	if res.RPCErr == drv.ErrWatchdog {
+		return []string{"INCONCLUSIVE|operations on " + s.Name + ": no answer within the watchdog"}
+	}
+	var oks, fails []uint64
+	for _, r := range res.Results {
+		s.Terminal[r.GetId()] = append(s.Terminal[r.GetId()], r.GetStatus())
+		switch {
+		case r.GetId() == second.Op.GetId() && r.GetStatus() != spb.AFTResult_FAILED:
+			probs = append(probs, fmt.Sprintf("unauthorised-operation-acknowledged:no-election-id-later-in-request|%s: %s carries no election id (second operation of a request whose first is correctly stamped) and was answered %s", s.Name, second.String(), r.GetStatus()))
+		case r.GetId() == first.Op.GetId() && r.GetStatus() == spb.AFTResult_RIB_PROGRAMMED:
+			oks = append(oks, r.GetId())
+		case r.GetId() == first.Op.GetId() && r.GetStatus() == spb.AFTResult_FAILED:
+			fails = append(fails, r.GetId())
+		case r.GetId() != first.Op.GetId() && r.GetId() != second.Op.GetId() && r.GetStatus() == spb.AFTResult_RIB_PROGRAMMED:
+			oks = append(oks, r.GetId()) // a held operation released by the first one
+		case r.GetId() != first.Op.GetId() && r.GetId() != second.Op.GetId() && r.GetStatus() == spb.AFTResult_FAILED:
+			fails = append(fails, r.GetId())
+		}
+	}
+	if _, known := w.X.M.NI[first.NI]; known && first.NI != "" {
+		r := w.X.M.Step(first, oks, fails)
+		probs = append(probs, r.Problems...)
+		w.LastCascade += r.Cascade
+		if _, held := w.X.M.Held[first.Op.GetId()]; held {
+			if w.HeldOwner == nil {
+				w.HeldOwner = map[uint64]*SS{}
+			}
+			w.HeldOwner[first.Op.GetId()] = s
+		}
+	}
+	if res.RPCErr == nil {
+		probs = append(probs, fmt.Sprintf("violation-accepted:operation-without-election-id-later-in-request|%s: the second operation of the request carries no election id, but the RPC continued (results %s)", s.Name, resultsStr(res.Results)))
+		return probs
+	}
+	s.Open = false
+	var err error = res.RPCErr
+	if err.Error() == "EOF" {
+		err = nil
+	}
+	if msg := (Expect{Codes: []codes.Code{codes.FailedPrecondition}}).CheckStatus(err); msg != "" {
+		probs = append(probs, fmt.Sprintf("wrong-termination-status:no-election-id-later-in-request:%s|%s: %s", status.Code(res.RPCErr), s.Name, msg))
+	}
+	return probs
+}
